@@ -597,7 +597,7 @@ func c12Mutate(t *rapid.T, body []byte, donor []byte) ([]byte, []string) {
 	var kinds []string
 	n := rapid.IntRange(1, 4).Draw(t, "nmut")
 	for i := 0; i < n && len(b) > 0; i++ {
-		k := rapid.SampledFrom([]string{"truncate", "flip", "byte", "pkglen", "pkglen", "selfname", "splice", "swapop", "dup", "insert", "nest", "bufnest", "bufnest", "fieldconn", "extop", "selfpath", "selfpath", "outrun"}).Draw(t, "mutk")
+		k := rapid.SampledFrom([]string{"truncate", "flip", "byte", "pkglen", "pkglen", "selfname", "splice", "swapop", "dup", "insert", "nest", "bufnest", "bufnest", "fieldconn", "extop", "selfpath", "selfpath", "outrun", "segprefix"}).Draw(t, "mutk")
 		pos := rapid.IntRange(0, len(b)-1).Draw(t, "pos")
 		switch k {
 		case "truncate":
@@ -737,6 +737,28 @@ func c12Mutate(t *rapid.T, body []byte, donor []byte) ([]byte, []string) {
 				ins = append(ins, follower(s1)...)
 			}
 			b = append(b[:pos], append(ins, b[pos:]...)...)
+		case "segprefix":
+			// the first 1-4 bytes of a later segment of the next dual/multi name path become
+			// name-prefix bytes (0x2e / 0x2f)
+			for j := pos; j+9 <= len(b); j++ {
+				segs, first := 0, 0
+				switch {
+				case b[j] == 0x2e && c12IsSeg(b[j+1:j+5]) && c12IsSeg(b[j+5:j+9]):
+					segs, first = 2, j+1
+				case b[j] == 0x2f && j+2+4*int(b[j+1]) <= len(b) && b[j+1] >= 2 && c12IsSeg(b[j+2:j+6]):
+					segs, first = int(b[j+1]), j+2
+				}
+				if segs == 0 {
+					continue
+				}
+				at := first + 4*rapid.IntRange(1, segs-1).Draw(t, "spseg")
+				n := rapid.SampledFrom([]int{4, 4, 1, 2, 3}).Draw(t, "spcount")
+				pb := rapid.SampledFrom([]byte{0x2e, 0x2f}).Draw(t, "spbyte")
+				for i := 0; i < n; i++ {
+					b[at+i] = pb
+				}
+				break
+			}
 		case "outrun":
 			// packages that claim to extend beyond the package that contains them, nested: at
 			// every level a short outer package (Buffer, Package, VarPackage) whose first operand
